@@ -1,6 +1,6 @@
 (* C09 — property theorems only: each restates the full statement and is closed by the lemma proved in Proofs/. *)
 From Coq Require Import ZArith List Bool.
-From NPS Require Import ListAux PySlice NumpySem Scatter BuildIdx XorBroadcast View Index Assign Reduce Scan RaOps Heap Hash HashRun BitArr RLE RLEOps RLE2d DataClass RowsSpec AssignSpec MapSpec Denote ColProof ColSum.
+From NPS Require Import ListAux PySlice NumpySem Scatter BuildIdx XorBroadcast View Index Assign Reduce Scan RaOps Heap Hash HashRun BitArr RLE RLEOps RLE2d DataClass RowsSpec AssignSpec MapSpec Denote ColProof ColSum Struct2 Struct2Proof.
 Import ListNotations.
 Open Scope Z_scope.
 
@@ -16,3 +16,11 @@ Theorem C09_colsum_correct :
   forall R : list (list Z), ra_colsum (concat R, map zlen R) = spec_colsum R.
 Proof. exact colsum_correct. Qed.
 Print Assumptions C09_colsum_correct.
+
+Theorem C09_get_column_values_correct :
+  forall (A : Type) (d : A) (R : list (list A)) (j : Z),
+       0 <= j ->
+       spec_getitem R (IRowCol (RMany (RMask (col_mask (map zlen R) j))) (CInt j)) =
+       Ok (RFlat (map (fun r : list A => nth (Z.to_nat j) r d) (filter (fun r : list A => j <? zlen r) R))).
+Proof. exact (@get_column_values_correct). Qed.
+Print Assumptions C09_get_column_values_correct.
